@@ -129,7 +129,8 @@ func attackServer(ca, other *tlsm.CA, serverCert tls.Certificate, certKind strin
 	if !plaintext {
 		ccfg := &tls.Config{RootCAs: ca.Pool, ServerName: "kmip.test", MinVersion: tls.VersionTLS10, MaxVersion: maxVer, CipherSuites: attackCipherSuites}
 		if leaf := leafFor(certKind, ca, other, "client.test", true); leaf != nil {
-			ccfg.Certificates = []tls.Certificate{*leaf}
+			// an attacker presents its certificate whatever issuers the server says it accepts
+			ccfg.GetClientCertificate = func(*tls.CertificateRequestInfo) (*tls.Certificate, error) { return leaf, nil }
 		}
 		tc := tls.Client(cc, ccfg)
 		_ = tc.Handshake() // with TLS 1.3 a rejected client certificate only shows on the first read
@@ -267,6 +268,14 @@ func runC16(r *Result, d *drv.Driver, tier string, seed int64, replay string) {
 	}{
 		{"DefaultServerTLSConfig then DefaultClientTLSConfig", func(cfg *tls.Config) { kmip.DefaultServerTLSConfig(cfg); kmip.DefaultClientTLSConfig(cfg) }},
 		{"DefaultClientTLSConfig then DefaultServerTLSConfig", func(cfg *tls.Config) { kmip.DefaultClientTLSConfig(cfg); kmip.DefaultServerTLSConfig(cfg) }},
+		// the order the library's own tests use: helper first, pool afterwards - the pool is what the configuration is
+		// served with, whenever it was put there
+		{"DefaultServerTLSConfig first, ClientCAs assigned afterwards", func(cfg *tls.Config) {
+			pool := cfg.ClientCAs
+			cfg.ClientCAs = nil
+			kmip.DefaultServerTLSConfig(cfg)
+			cfg.ClientCAs = pool
+		}},
 	} {
 		c16ServerPrep = prep.f
 		for _, k := range []string{"none", "valid", "selfSigned", "otherCA", "expired"} {
@@ -280,7 +289,7 @@ func runC16(r *Result, d *drv.Driver, tier string, seed int64, replay string) {
 				}
 				served := ev != "sessionAuth=0 requestAuth=0 handler=0" || resp
 				if !want && served {
-					r.find(Finding{Kind: "violation", What: "KMIP was served to a peer without a verified TLS 1.2+ handshake (the Server's configuration went through both Default...TLSConfig helpers)", Input: key, Expect: "sessionAuth=0 requestAuth=0 handler=0, no response", Actual: fmt.Sprintf("%s response=%v", ev, resp)})
+					r.find(Finding{Kind: "violation", What: "KMIP was served to a peer without a verified TLS 1.2+ handshake (configuration prepared in another order, see the input)", Input: key, Expect: "sessionAuth=0 requestAuth=0 handler=0, no response", Actual: fmt.Sprintf("%s response=%v", ev, resp)})
 				}
 				if want && !served {
 					r.find(Finding{Kind: "disagreement", What: "a peer the TLS model admits was not served (crypto/tls assumption or harness)", Input: key, Expect: "served", Actual: fmt.Sprintf("%s response=%v", ev, resp)})
